@@ -5,6 +5,7 @@ PROP = dict(
     coq_targets=["theories/C16/Props.vo"],
     theorems=["overlay_total_upto_64", "overlay_sound", "first_match_is_active", "preflight_keeps_substitutions",
               "order_irrelevant_when_compatible", "overlay_applies_source_rules", "font_applies_source_rules",
+              "no_collision_without_full_range_conditions", "merging_never_adds_rules",
               "rank_words_refuted", "rank_words_priority_refuted", "empty_region_refuted", "touching_edges_refuted",
               "condset_collision_refuted", "later_rule_wins_refuted", "chained_rules_order_refuted"],
     prelude="Require Import FV.C16.Model.\nFrom Coq Require Import List NArith ZArith Bool.",
